@@ -67,6 +67,8 @@ pub enum Action {
     AddUsedSignal(u16, u32),
     /// write `len` bytes at guest address through the memory handed to the backend
     WriteMem(u64, usize),
+    /// stay inside the handler until the harness releases the gate (bounded): "this worker is busy"
+    Hold,
 }
 
 #[derive(Default)]
@@ -84,6 +86,9 @@ pub struct Shared {
     pub action_results: Vec<String>,
     pub fail_update_memory: bool,
     pub seq: u64,
+    /// thread id of the worker currently held inside the handler by `Action::Hold`
+    pub held: Option<usize>,
+    pub release: bool,
 }
 
 #[derive(Clone)]
@@ -301,6 +306,20 @@ where
                     }
                     None => "no ring".into(),
                 },
+                Action::Hold => {
+                    let (m, cv) = &*self.sh;
+                    let mut s = m.lock().unwrap();
+                    s.held = Some(thread_id);
+                    s.release = false;
+                    cv.notify_all();
+                    let start = Instant::now();
+                    while !s.release && start.elapsed() < Duration::from_secs(20) {
+                        s = cv.wait_timeout(s, Duration::from_millis(50)).unwrap().0;
+                    }
+                    s.held = None;
+                    cv.notify_all();
+                    "held".into()
+                }
                 Action::WriteMem(gpa, len) => {
                     use vm_memory::{Bytes, GuestAddress};
                     let mem = self.mem.lock().unwrap().clone();
